@@ -112,6 +112,15 @@ def f_s3(a: S0, b: S1) -> S3:
 	return _made(S3(a, b), 'f_s3')
 
 
+def f_s3_opt(a: S0, b: S1 = None) -> S3:  # type: ignore[assignment]
+	# an annotated parameter with a default value is a parameter like any other for the container: filled when bound, else it must be passed
+	return _made(S3(a, b), 'f_s3_opt')
+
+
+def f_s4_opt(a: S0, n: int, s: str = 'dflt') -> S4:
+	return _made(S4(a, n, s), 'f_s4_opt')
+
+
 def f_s3_rev(b: S1, a: S0) -> S3:
 	o = S3.__new__(S3)
 	Obj.__init__(o, b, a)  # dependencies recorded in parameter order
@@ -215,6 +224,8 @@ FACTORIES: dict[str, tuple[Any, str, list[str], list[type]]] = {
 	'f_s2': (f_s2, 'S2', ['S0'], []),
 	'f_s3': (f_s3, 'S3', ['S0', 'S1'], []),
 	'f_s3_rev': (f_s3_rev, 'S3', ['S1', 'S0'], []),
+	'f_s3_opt': (f_s3_opt, 'S3', ['S0', 'S1'], []),
+	'f_s4_opt': (f_s4_opt, 'S4', ['S0'], [int, str]),
 	'f_s4': (f_s4, 'S4', ['S0'], [int, str]),
 	'f_s4_plain': (f_s4_plain, 'S4', [], [int, str]),
 	'f_s5_mixed': (f_s5_mixed, 'S5', ['S0', 'G0'], [int]),
